@@ -684,6 +684,41 @@ func suiteTrace(h *H) {
 			h.emit(fmt.Sprintf("!trace-unreadable seed=%d c2s=%d s2c=%d", h.seed, pr[0], pr[1]), strings.SplitN(out, ":", 2)[0], v, true)
 			h.stat("trace.unreadable")
 		}
+		// many such files in one session (every request that gets no answer must not use up anything): it ends all the same
+		for n, count := range []int{63, 64, 65, 100, 300} {
+			memfs := fstest.MapFS{}
+			deny := map[string]bool{}
+			for i := 0; i < count; i++ {
+				name := fmt.Sprintf("b-unreadable-%03d", i)
+				memfs[name] = &fstest.MapFile{Data: bytes.Repeat([]byte{'u'}, 300+i), Mode: 0o644, ModTime: T}
+				deny[name] = true
+			}
+			for _, name := range []string{"a-ok", "z-ok", "zz-ok"} {
+				memfs[name] = &fstest.MapFile{Data: bytes.Repeat([]byte(name), 300), Mode: 0o644, ModTime: T}
+			}
+			mod := &rsyncd.Module{Name: "memfs", FS: &unreadableFS{MapFS: memfs, deny: deny}}
+			dst := filepath.Join(dir, fmt.Sprintf("dstmany%d", n))
+			os.MkdirAll(dst, 0o755)
+			out := runModuleOverTransport(mod, []string{"-a"}, dst, 64*1024, 64*1024, int64(h.seed)+int64(n), 20*time.Second)
+			v := ""
+			switch {
+			case strings.HasPrefix(out, "timeout"):
+				v = fmt.Sprintf("FAIL[C18] a session with %d source files that cannot be opened never ends: %s", count, out)
+			case strings.HasPrefix(out, "panic"):
+				v = "FAIL[C08] " + out
+			case out == "ok":
+				v = "FAIL[C01] the session reported success although listed source files could not be opened by the sender"
+			default:
+				if b, err := os.ReadFile(filepath.Join(dst, "zz-ok")); err != nil || !bytes.Equal(b, memfs["zz-ok"].Data) {
+					v = fmt.Sprintf("FAIL[C01] with %d unreadable source files before it, a readable file was not transferred", count)
+				}
+			}
+			h.emit(fmt.Sprintf("!trace-unreadable-many seed=%d count=%d", h.seed, count), strings.SplitN(out, ":", 2)[0], v, true)
+			h.stat("trace.unreadable-many")
+			if strings.HasPrefix(out, "timeout") {
+				break
+			}
+		}
 		os.RemoveAll(dir)
 	}
 	// ---- a source file one of whose reads fails with an I/O error, on the whole-file path (no previous copy) and on the
